@@ -86,6 +86,32 @@ def oracle_all(hist: dict, r: dict, which: set) -> list:
                     ok = len(pl) == 1 and pl[0][0] == o[0] and (o[0] != "delayed" or pl[0][2] == o[1])
                     if not ok:
                         bad.append(("reject_not_to_origin", f"taken from {o}, after reject in {pl}", where))
+        elif op == "together":
+            hb = e["held_before"]
+            for sb in e["subs"]:
+                if sb["k"] == "finish":
+                    for i in e["mine"][sb["c"]]:
+                        holder.pop(i, None)
+                    continue
+                i = sb["id"]
+                if i not in hb:
+                    continue
+                holder.pop(i, None)
+                if sb["k"] == "ack":
+                    # on a message its holder's finish() returned in the same step the ack finds nothing
+                    if not any(x["k"] == "finish" and hb[i][0] == x["c"] for x in e["subs"][:e["subs"].index(sb)]):
+                        live[i] = 0
+                    elif not places.get(i):
+                        live[i] = 0
+                elif sb["k"] == "requeue":
+                    live[i] = None     # replaced or duplicated legitimately? decided below
+                    due[i] = due_of(sb["params"], e["t"])
+                    expiry[i] = expiry_of(sb["params"])
+            for i, v in list(live.items()):
+                if v is None:
+                    # requeue next to the holder's finish: well-behavedness is broken by construction (the message was
+                    # already returned when the requeue ran), the id may legitimately be present twice
+                    live.pop(i)
         elif op == "finish":
             for i in e["returned"]:
                 holder.pop(i, None)
